@@ -4,6 +4,8 @@ package checks
 var Registry = map[string]func(tier string){
 	"C01": C01,
 	"C16": C16,
+	"C15": C15,
+	"C13": C13,
 	"C14": C14,
 	"C11": C11,
 	"C09": C09,
